@@ -1,3 +1,3 @@
 #!/bin/bash
-# tools/verify_queue.sh NAME...   (NAME like C03-1; source dir /tmp/seed/<ID>/seeded/<NAME>) ; 3 in parallel
-printf "%s\n" "$@" | xargs -P 3 -I{} sh -c 'p=$(echo {} | cut -d- -f1); /verif/tools/verify_seeded.py /tmp/seed/$p/seeded/{} --keep-as {} > /var/tmp/vs_{}.log 2>&1'
+# tools/verify_queue.sh NAME...   (NAME like C03-1; source dir /tmp/seed/<ID>*/seeded/<NAME>) ; 3 in parallel
+printf "%s\n" "$@" | xargs -P 3 -I{} sh -c 'p=$(echo {} | cut -d- -f1); d=$(ls -d /tmp/seed/${p}*/seeded/{} 2>/dev/null | head -1); /verif/tools/verify_seeded.py $d --keep-as {} > /var/tmp/vs_{}.log 2>&1'
